@@ -126,3 +126,36 @@ Theorem C06_graph_variants_agree :
     exists df dm, snd rf = CrOk (df, snd (ga_run ga_init l)) /\ snd rm = CrOk (dm, snd (ga_run ga_init l)).
 Proof. exact cg_variants_agree. Qed.
 Print Assumptions C06_graph_variants_agree.
+
+(* ======================= the database level: one database in a file-like and in a memory-like storage =======================
+   (models, the relation stored_db and the loader load_db: see the L3 section of Props/C05.v; theories/StoredDb*.v)
+   If the file-like and the memory-like model of storage.rs are each in a state (refining an abstract map) that holds
+   the SAME database d, the loader program — DbImpl::new's loaders, every component read to the end — returns on both a
+   database with the same graph arrays and the same property lists, and equal up to sd_eqv altogether (alias lookups,
+   index keys in order, ids per index as multisets); hence (C05_db_eqv_queries) every order-independent read-only
+   query has the same result on both.  Also for two plain record stores.
+   _partial: that the two variants ARE in states holding the same database after the same history of queries is the
+   simulation of db.rs's mutations (C05_db_operations_preserve_stored_db, the missing link named in Props/C05.v);
+   covered by the side-by-side runs of this check. *)
+From Agdb Require Import Bytes Records Graph DbModel StorageRefine StoredDb StoredDbRep StoredDbRun StoredDbLoad StoredDbProofs StoredDbExample.
+
+Theorem C06_db_variants_agree_partial :
+  (forall sf spf sm_ spm root d,
+     Rel sf spf -> Rel sm_ spm -> stored_db (hp spf) root d -> stored_db (hp spm) root d ->
+     let rf := cp_run (st_step cdata ops_file) (sd_load root) sf in
+     let rm := cp_run (st_step cdata ops_mem) (sd_load root) sm_ in
+     snd rf = CrDead \/ snd rm = CrDead \/
+     exists df dm, snd rf = CrOk df /\ snd rm = CrOk dm /\ sd_eqv df dm /\ gr df = gr dm /\ vals df = vals dm) /\
+  (forall m1 m2 root1 root2 d,
+     stored_db (m_get m1) root1 d -> stored_db (m_get m2) root2 d ->
+     exists d1 d2, load_db m1 root1 = Some d1 /\ load_db m2 root2 = Some d2 /\ sd_eqv d1 d2 /\
+                   gr d1 = gr d2 /\ vals d1 = vals d2).
+Proof. split; [exact sd_variants_agree|exact sd_stores_agree]. Qed.
+Print Assumptions C06_db_variants_agree_partial.
+
+(* non-vacuity: the same creation program (theories/StoredDbExample.v) run on the file-like and on the memory-like model of
+   storage.rs leaves the same record store, which holds the database and loads to it *)
+Example C06_db_sample :
+  sx_store_mem = sx_store /\ stored_db (m_get sx_store) 1 sx_db /\ load_db sx_store_mem 1 = Some sx_db.
+Proof. destruct sx_sample as (_ & _ & H1 & H2 & _ & _ & _ & H3). rewrite H3. auto. Qed.
+Print Assumptions C06_db_sample.
